@@ -265,6 +265,22 @@ func genIndexCmds(r *core.Rand, tier string) []trainCmd {
 			n = r.Range(0, lo)
 		}
 	}
+	// the property's whole range of training-set sizes (up to 500): large sets relative to the number of
+	// centroids (hundreds of vectors per centroid with Nbits 1..2 / few lists) in a sixth of the cases
+	if r.Chance(0.17) {
+		switch typ {
+		case "ivf":
+			nlist = r.Range(1, 3)
+		case "pq":
+			nbits = r.Range(1, 2)
+		default:
+			nbits, nlist = r.Range(1, 2), r.Range(1, 2)
+		}
+		if dim > 4 {
+			dim = max(m, 1) * r.Range(1, 2)
+		}
+		n = []int{r.Range(129, 140), r.Range(257, 270), r.Range(129, 500), 500}[r.Intn(4)]
+	}
 	vs, _ := genTrainSet(r, max(n, 1), dim)
 	vs = vs[:n]
 	cmds := []trainCmd{{Op: "itrain", Typ: typ, Metric: metric, P1: nlist, P2: m, P3: nbits, Vecs: bits2(vs)}}
@@ -300,8 +316,12 @@ func genIndexCmds(r *core.Rand, tier string) []trainCmd {
 	}
 	// add the training vectors (and a few fresh ones) to both copies, then query
 	id := uint32(1)
+	pAdd := 0.7
+	if len(vs) > 80 {
+		pAdd = 56.0 / float64(len(vs))
+	}
 	for _, v := range vs {
-		if r.Chance(0.7) {
+		if r.Chance(pAdd) {
 			cmds = append(cmds, trainCmd{Op: "iadd", ID: id, Vec: core.Bits(v)})
 			id++
 		}
@@ -824,11 +844,17 @@ func execTrain(c *trainCase) []string {
 				last = probe(qs[2])
 			}
 			unch := same2(inA, tvA) && same2(inB, tvB)
+			// re-train the first (which holds range A) on the second's data: Train determines the range from
+			// its argument alone, so it must now equal the second quantizer in range and output
+			inB2 := from2(cmd.Vecs2)
+			qs[0].Train(inB2)
+			amaxR, r0b := amaxes(), use(qs[0])
+			unch = unch && same2(inB2, tvB)
 			// last independence probe, whatever the training data were: SetAbsMax(3.25) on the first only
 			qs[0].SetAbsMax(3.25)
 			amax3 := amaxes()
-			lines = append(lines, fmt.Sprintf("op qmulti %s %d %s %s %s %s => %s %s %s | %s %s | %s | %s | %s | %s %s | %s", viaTok(cmd.Via), n, cmd.Mode, arg, vecsHex(tvB), core.VecHex(v0),
-				b01(distinct), strings.Join(types, ","), strings.Join(pre, ","), amax1, strings.Join(mid, ","), amax2, r0, r1, last, b01(unch), amax3))
+			lines = append(lines, fmt.Sprintf("op qmulti %s %d %s %s %s %s => %s %s %s | %s %s | %s | %s | %s | %s %s | %s | %s %s", viaTok(cmd.Via), n, cmd.Mode, arg, vecsHex(tvB), core.VecHex(v0),
+				b01(distinct), strings.Join(types, ","), strings.Join(pre, ","), amax1, strings.Join(mid, ","), amax2, r0, r1, last, b01(unch), amax3, amaxR, r0b))
 		case "qnew":
 			qq, err := comet.NewQuantizer(comet.QuantizerType(cmd.Kind))
 			k := cmd.Kind
@@ -908,7 +934,7 @@ func nonTrivialTrain(lines, replies []string) bool {
 func init() {
 	register(&core.Typed[trainCase]{
 		StreamName: "train", Prop: "C20",
-		RuleText: "three themes — kmeans: 0..500 training vectors in 1..32 dims (blobs, Gaussian, duplicates, all-equal, collinear, integer lattice, axis; unit vectors for cosine), k in Z (k<=0, small, =n, >n), maxIter in {-1,0,1,2,3,5,20,50}, KMeans with 3 metrics and KMeansSubspace; index: IVF / PQ / IVFPQ trained twice on the same data (also too few vectors), in 35% of the cases re-trained on other data (mostly fewer vectors) and compared with a fresh index that saw only the second set, same adds and queries (k<=0, small, huge; nprobe 0..all) on both copies; quant: quantizers obtained through NewQuantizer (60%) or the struct literals; float32 copy, float16 over normal range / exact ties / subnormals / underflow / overflow boundary, int8 with training data, range ends, half-way points, out-of-range values, untrained; 2-3 int8 quantizers in one process (one trained or SetAbsMax first, the others must stay untrained and refuse, a second trained with a range 0.01x..1000x different, both used on the same probe); NewQuantizer on known and unknown kinds; Type / IsTrained / no-op Train / wrong stored type; CalculatePQParams on dims -16..2048. Non-trivial: a k-means run with n>=2 and >=2 centroids, or a twice-trained search with a non-empty answer, or a float16 op with a normal-range component, or an int8 op with an in-range component; distinct = distinct request streams",
+		RuleText: "three themes — kmeans: 0..500 training vectors in 1..32 dims (blobs, Gaussian, duplicates, all-equal, collinear, integer lattice, axis; unit vectors for cosine), k in Z (k<=0, small, =n, >n), maxIter in {-1,0,1,2,3,5,20,50}, KMeans with 3 metrics and KMeansSubspace; index: IVF / PQ / IVFPQ trained twice on the same data (also too few vectors; a sixth of the cases with 129..500 training vectors for 2..4 centroids / 1..3 lists), in 35% of the cases re-trained on other data (mostly fewer vectors) and compared with a fresh index that saw only the second set, same adds and queries (k<=0, small, huge; nprobe 0..all) on both copies; quant: quantizers obtained through NewQuantizer (60%) or the struct literals; float32 copy, float16 over normal range / exact ties / subnormals / underflow / overflow boundary, int8 with training data, range ends, half-way points, out-of-range values, untrained; 2-3 int8 quantizers in one process (one trained or SetAbsMax first, the others must stay untrained and refuse, a second trained with a range 0.01x..1000x different, both used on the same probe); NewQuantizer on known and unknown kinds; Type / IsTrained / no-op Train / wrong stored type; CalculatePQParams on dims -16..2048. Non-trivial: a k-means run with n>=2 and >=2 centroids, or a twice-trained search with a non-empty answer, or a float16 op with a normal-range component, or an int8 op with an in-range component; distinct = distinct request streams",
 		NCases: func(tier string) int {
 			if tier == "thorough" {
 				return 25000
